@@ -303,6 +303,10 @@ func (w *World) apply(m *myconn, s *Server, c *StmtCtx, id int64) *result {
 		return r
 	case "kill":
 		idn, _ := strconv.Atoi(reKill.FindStringSubmatch(q)[1])
+		if s.SSMaster && s.WaitCount > 0 {
+			w.killPendingLocked(s.Host, idn) // M7: the session is gone, the commit keeps waiting
+			return &result{}
+		}
 		var keep []*Txn
 		for _, t := range w.pending[s.Host] {
 			if 1000+t.Client == idn {
@@ -405,7 +409,11 @@ func (w *World) apply(m *myconn, s *Server, c *StmtCtx, id int64) *result {
 		return &result{}
 	case "offline_on":
 		s.Offline = true
-		w.failPendingLocked(s.Host, "unknown") // M4
+		if s.SSMaster && s.WaitCount > 0 {
+			w.killPendingLocked(s.Host, -1) // M4 + M7: sessions dropped, their commits keep waiting for the acknowledgement
+		} else {
+			w.failPendingLocked(s.Host, "unknown") // M4
+		}
 		return &result{}
 	case "offline_off":
 		s.Offline = false
